@@ -10,6 +10,7 @@ package main
 
 import (
 	"bytes"
+	"context"
 	"encoding/json"
 	"fmt"
 	"os"
@@ -26,6 +27,7 @@ import (
 
 type sessJob struct {
 	Decls []string `json:"decls"`
+	Entry []string `json:"entry"` // how the call is evaluated: eval | ctx | exec | execctx
 }
 
 type sessObs struct {
@@ -35,7 +37,7 @@ type sessObs struct {
 
 // session form: declarations in one Eval, the call in a second one, then the same
 // interpreter must evaluate a fresh expression and call a function defined earlier.
-func session(decls string) (o sessObs) {
+func session(decls, entry string) (o sessObs) {
 	var out bytes.Buffer
 	i := interp.New(interp.Options{Stdout: &out, Stderr: new(bytes.Buffer)})
 	i.Use(stdlib.Symbols)
@@ -48,11 +50,49 @@ func session(decls string) (o sessObs) {
 		o.End, o.Err = "error", "declarations: "+err.Error()
 		return
 	}
-	_, err := i.Eval(`fmt.Println("p", 0, f(1))`)
+	// defined before the call that may panic: a closure kept in a variable, and a function
+	// value handed to the host
+	if _, err := i.Eval("var keep = func() func() int { n := 40; return func() int { n++; return n } }()"); err != nil {
+		o.End, o.Err = "error", "closure definition: "+err.Error()
+		return
+	}
+	var hostKeep func() int
+	if v, err := i.Eval("keep"); err == nil {
+		hostKeep, _ = v.Interface().(func() int)
+	}
+	if hostKeep == nil {
+		o.End, o.Err = "error", "keep is not a func() int for the host"
+		return
+	}
+	const call = `fmt.Println("p", 0, f(1))`
+	var err error
+	switch entry {
+	case "ctx":
+		_, err = i.EvalWithContext(context.Background(), call)
+	case "exec", "execctx":
+		var prog *interp.Program
+		if prog, err = i.Compile(call); err == nil {
+			if entry == "exec" {
+				_, err = i.Execute(prog)
+			} else {
+				_, err = i.ExecuteWithContext(context.Background(), prog)
+			}
+		}
+	default:
+		_, err = i.Eval(call)
+	}
 	o.Obs = gocore.Classify(err)
 	o.Stdout = out.String()
-	// the interpreter must remain usable
+	// the interpreter must remain usable, and what was defined before must still work
 	o.After = "ok"
+	if v, err := i.Eval("keep()"); err != nil || !v.IsValid() || v.Int() != 41 {
+		o.After = fmt.Sprintf("the closure kept in a variable gave %v, %v (want 41)", v, err)
+		return
+	}
+	if got := hostKeep(); got != 42 {
+		o.After = fmt.Sprintf("the function value held by the host gave %d (want 42)", got)
+		return
+	}
 	if v, err := i.Eval("1+2"); err != nil || !v.IsValid() || v.Int() != 3 {
 		o.After = fmt.Sprintf("1+2 gave %v, %v", v, err)
 		return
@@ -72,7 +112,11 @@ func init() {
 		out := make([]sessObs, len(j.Decls))
 		for x, d := range j.Decls {
 			done := make(chan struct{})
-			go func() { defer close(done); out[x] = session(d) }()
+			e := "eval"
+			if x < len(j.Entry) {
+				e = j.Entry[x]
+			}
+			go func() { defer close(done); out[x] = session(d, e) }()
 			select {
 			case <-done:
 			case <-time.After(10 * time.Second):
@@ -160,8 +204,9 @@ func sessions(c *fw.Ctx, behs []gocore.Beh) error {
 			y = len(sel)
 		}
 		var j sessJob
-		for _, i := range sel[x:y] {
+		for k, i := range sel[x:y] {
 			j.Decls = append(j.Decls, strings.Replace(gocore.Prelude, "package main\n", "", 1)+"\n"+behs[i].Prog.FuncDecls())
+			j.Entry = append(j.Entry, []string{"eval", "ctx", "exec", "execctx"}[(x+k)%4])
 		}
 		jobs = append(jobs, j)
 	}
@@ -175,7 +220,7 @@ func sessions(c *fw.Ctx, behs []gocore.Beh) error {
 			c.Count("session:"+jobs[ji].(sessJob).Decls[x], true)
 			c.TracesVsImpl++
 			rep := map[string]any{"prog": b.Prog, "out": b.Out, "status": b.Status, "pval": b.Pval, "session": true,
-				"decls": jobs[ji].(sessJob).Decls[x], "call": `fmt.Println("p", 0, f(1))`, "expected_stdout": b.ExpectedStdout(), "observed": o}
+				"decls": jobs[ji].(sessJob).Decls[x], "entry": jobs[ji].(sessJob).Entry[x], "call": `fmt.Println("p", 0, f(1))`, "expected_stdout": b.ExpectedStdout(), "observed": o}
 			switch {
 			case !b.Agrees(o.Obs):
 				c.Fail("session", "the call behaves differently from the whole program: "+o.End+" "+o.Value+" "+o.Err, rep)
